@@ -299,6 +299,26 @@ const ORDERS: [Order; 3] = [Order::Grouped, Order::Reverse, Order::Mixed];
 #[derive(Clone, Copy, Debug, PartialEq, Eq, Hash, PartialOrd, Ord)]
 enum Transport { Roomy, S16, S12, S7, S1C1, C7 }
 
+/// The public route by which the client-step events (`S`, `C<k>`, `M<k>:<S>`)
+/// synchronise: the client's own `step()`, or the pieces a user may call
+/// directly. (`Client::serial` is private and reachable only through
+/// `update()`.) Fixed per root.
+#[derive(Clone, Copy, Debug, PartialEq, Eq, Hash, PartialOrd, Ord)]
+enum Route {
+    /// `step()`
+    Step,
+    /// `update()` followed by `apply()`
+    UpdateApply,
+    /// `reset()` followed by `apply()`: always a reset query, never waits
+    ResetApply,
+}
+
+const ROUTES: [Route; 3] = [Route::Step, Route::UpdateApply, Route::ResetApply];
+
+impl Route {
+    fn name(self) -> &'static str { match self { Route::Step => "step", Route::UpdateApply => "update", Route::ResetApply => "reset" } }
+}
+
 const TRANSPORTS: [Transport; 6] = [Transport::Roomy, Transport::S16, Transport::S12, Transport::S7, Transport::S1C1, Transport::C7];
 
 impl Transport {
@@ -943,7 +963,7 @@ const ROOT_SETS: [u8; 3] = [6, 1, 7];
 const ROOT_SERIAL0: u32 = 100;
 
 #[derive(Clone, Copy, Debug, PartialEq, Eq, Hash, PartialOrd, Ord)]
-struct Cfg { civ: u8, limit: u8, mode: ProxyMode, style: Style, cap: u8, order: Order, link: Transport, init: Init }
+struct Cfg { civ: u8, limit: u8, mode: ProxyMode, style: Style, cap: u8, order: Order, link: Transport, route: Route, init: Init }
 
 impl Cfg {
     /// `Client::new` proposes version 2, like `with_initial_version(2, ..)`:
@@ -951,12 +971,12 @@ impl Cfg {
     /// 2: `new`; limit 1: `with_initial_version`), reconnects included.
     fn uses_default_ctor(&self) -> bool { self.civ == 2 && self.limit != 1 }
     fn render(&self) -> String {
-        format!("civ={} limit={} proxy={} style={} cap={} order={} link={} init={}", self.civ, self.limit,
+        format!("civ={} limit={} proxy={} style={} cap={} order={} link={} route={} init={}", self.civ, self.limit,
             match self.mode { ProxyMode::ErrorReply => "error", ProxyMode::AnswerLower => "lower" },
-            match self.style { Style::Net => "net", Style::Chained => "chained" }, self.cap, self.order.name(), self.link.name(), self.init.name())
+            match self.style { Style::Net => "net", Style::Chained => "chained" }, self.cap, self.order.name(), self.link.name(), self.route.name(), self.init.name())
     }
     fn parse(s: &str) -> Option<(Cfg, Vec<Ev>)> {
-        let mut civ = None; let mut limit = None; let mut cap = Some(2u8); let mut order = Some(Order::Grouped); let mut link = Some(Transport::Roomy); let mut mode = None; let mut style = None; let mut init = None; let mut hist = None;
+        let mut civ = None; let mut limit = None; let mut cap = Some(2u8); let mut order = Some(Order::Grouped); let mut link = Some(Transport::Roomy); let mut route = Some(Route::Step); let mut mode = None; let mut style = None; let mut init = None; let mut hist = None;
         for tok in s.split_whitespace() {
             let (k, v) = tok.split_once('=')?;
             match k {
@@ -965,6 +985,7 @@ impl Cfg {
                 "cap" => cap = v.parse().ok(),
                 "order" => order = ORDERS.iter().copied().find(|o| o.name() == v),
                 "link" => link = TRANSPORTS.iter().copied().find(|o| o.name() == v),
+                "route" => route = ROUTES.iter().copied().find(|o| o.name() == v),
                 "proxy" => mode = match v { "error" => Some(ProxyMode::ErrorReply), "lower" => Some(ProxyMode::AnswerLower), _ => None },
                 "style" => style = match v { "net" => Some(Style::Net), "chained" => Some(Style::Chained), _ => None },
                 "init" => init = INITS.iter().copied().find(|i| i.name() == v),
@@ -976,7 +997,7 @@ impl Cfg {
                 _ => return None,
             }
         }
-        Some((Cfg { civ: civ?, limit: limit?, mode: mode?, style: style?, cap: cap?, order: order?, link: link?, init: init? }, hist?))
+        Some((Cfg { civ: civ?, limit: limit?, mode: mode?, style: style?, cap: cap?, order: order?, link: link?, route: route?, init: init? }, hist?))
     }
 }
 
@@ -1123,7 +1144,8 @@ enum ConnK {
 /// that can influence a later exchange is in the key:
 ///
 /// * `cfg` — initial client version, proxy limit and mode, diff style,
-///   retained-chain cap, iteration order of the source and transport (fixed
+///   retained-chain cap, iteration order of the source, transport and
+///   public route of the client steps (fixed
 ///   per run; the initial client state is NOT part of it: it only selects the
 ///   root, what it leaves behind is captured by `pos` and `data`).
 /// * source side: the real server connection keeps nothing between queries
@@ -1152,7 +1174,7 @@ enum ConnK {
 /// key is taken, so no half-read stream can hide behind a key.
 #[derive(Clone, Debug, PartialEq, Eq, Hash)]
 struct Key {
-    cfg: (u8, u8, ProxyMode, Style, u8, Order, Transport),
+    cfg: (u8, u8, ProxyMode, Style, u8, Order, Transport, Route),
     cur: u8,
     epoch: u8,
     pos: Pos,
@@ -1350,7 +1372,7 @@ fn compute_key(cfg: &Cfg, src: &Source, conn: &Conn) -> (Key, Abs, Vec<String>) 
         ConnK::Established { query_version: q, answer_version: a, timing: conn.client.target().reported_timing }
     };
     let key = Key {
-        cfg: (cfg.civ, cfg.limit, cfg.mode, cfg.style, cfg.cap, cfg.order, cfg.link), cur: s.cur, epoch: s.epoch, pos,
+        cfg: (cfg.civ, cfg.limit, cfg.mode, cfg.style, cfg.cap, cfg.order, cfg.link, cfg.route), cur: s.cur, epoch: s.epoch, pos,
         data: conn.client.target().data.clone(), conn: connk, pending: pending.clone(),
     };
     let abs = Abs { cur: s.cur, chain_len: s.chain.len(), epoch: s.epoch, pending: pending.len(), established: conn.ok_steps > 0 };
@@ -1467,7 +1489,17 @@ async fn exec_async(cfg: Cfg, hist: Vec<Ev>) -> Exec {
                 // `run()` is the library's own loop of steps; it returns Ok(())
                 // when the peer has closed the connection
                 let res = if is_run { tokio::time::timeout(3 * HORIZON, conn.client.run()).await }
-                    else { tokio::time::timeout(HORIZON, conn.client.step()).await };
+                    else {
+                        let route = cfg.route;
+                        let client = &mut conn.client;
+                        tokio::time::timeout(HORIZON, async move {
+                            match route {
+                                Route::Step => client.step().await,
+                                Route::UpdateApply => { let u = client.update().await?; client.apply(u).await }
+                                Route::ResetApply => { let u = client.reset().await?; client.apply(u).await }
+                            }
+                        }).await
+                    };
                 let sim_ms = t0.elapsed().as_millis() as u64;
                 settle().await;
                 let result = match res {
@@ -1826,12 +1858,16 @@ fn main() {
             let link = std::env::var("C06_LINK").ok().and_then(|n| TRANSPORTS.iter().copied().find(|t| t.name() == n))
                 .unwrap_or(rot[v][rot_at[v] % rot[v].len()]);   // C06_LINK: measuring aid, forces one transport everywhere
             rot_at[v] += 1;
-            for &init in &INITS { roots.push(Cfg { civ, limit, mode, style, cap, order, link, init }); }
+            // the route rotates with the transport, shifted so that versions 1 and
+            // 2 (the ones with timing) start with reset()+apply() / update()+apply()
+            let route = [[Route::Step, Route::UpdateApply, Route::ResetApply], [Route::ResetApply, Route::Step, Route::UpdateApply],
+                [Route::UpdateApply, Route::ResetApply, Route::Step]][v][(rot_at[v] - 1) % 3];
+            for &init in &INITS { roots.push(Cfg { civ, limit, mode, style, cap, order, link, route, init }); }
         }
     }}
 
     let sp = ctx.space("rtr.histories",
-        "breadth-first over event histories {update(S) [thorough: + update_nodiff(S)] for the 7 other sets of an 8-set family, drop_diffs, restart, wrap, notify, client_step, client_step with the connection dying after 1/2/3 response PDUs, client_step with the source moving to another set (quick: 2 target sets, thorough: 3) on entry to the k-th source call of the exchange, k = 1..5} from every root (7 initial client states x client initial version 0..2 x proxy limit 0..2 [thorough: + answer-lower proxy where civ > limit] x diff style [thorough: chained with 2 and 3 retained diffs, net with 2; quick: chained with 2] x iteration order of the source's sets and diff steps {grouped by type, reverse, mixed so that an unsupported-type item precedes supported ones; withdraw-first / announce-first inside a diff step} [one order per version configuration chosen so that every negotiated version meets all three; thorough: full product for chained/2] x transport {roomy pipes; server->client pipe of 16, 12, 7 octets; 1-octet pipes both ways; client->server pipe of 7 octets — a pipe of k octets delivers at most k octets per read, so router-key info (91 octets) and ASPA provider lists (4-5 providers) reach the client in pieces} [rotated over the (version configuration, order) groups, one rotation per negotiated version]), states de-duplicated by canonical key, every transition re-executed on the real Client and Server; oracles judge against the state named in End of Data, never against the source's latest state; timing is judged only when the source was asked for its timing while in that very state (the library reads timing in a separate call, so an update landing between data and timing leaves the clause undefined); the civ=2 roots with limit 0 and 2 build the client with Client::new, all others with Client::with_initial_version; every payload handed to the target or served by the source also goes through the accessor sweep (payload_type, is_v4, Aspa::key, Action predicates, into_bytes, asn_count, pdu into_key_info / into_providers, State::inc / Serial::add / State::new*), compared with sibling accessors only; non-trivial = transitions whose client step completed (Ok) AND changed the client's state or data (each (state, event) pair is executed once, so they are distinct by construction)");
+        "breadth-first over event histories {update(S) [thorough: + update_nodiff(S)] for the 7 other sets of an 8-set family, drop_diffs, restart, wrap, notify, client_step, client_step with the connection dying after 1/2/3 response PDUs, client_step with the source moving to another set (quick: 2 target sets, thorough: 3) on entry to the k-th source call of the exchange, k = 1..5} from every root (7 initial client states x client initial version 0..2 x proxy limit 0..2 [thorough: + answer-lower proxy where civ > limit] x diff style [thorough: chained with 2 and 3 retained diffs, net with 2; quick: chained with 2] x iteration order of the source's sets and diff steps {grouped by type, reverse, mixed so that an unsupported-type item precedes supported ones; withdraw-first / announce-first inside a diff step} [one order per version configuration chosen so that every negotiated version meets all three; thorough: full product for chained/2] x transport {roomy pipes; server->client pipe of 16, 12, 7 octets; 1-octet pipes both ways; client->server pipe of 7 octets — a pipe of k octets delivers at most k octets per read, so router-key info (91 octets) and ASPA provider lists (4-5 providers) reach the client in pieces} [rotated over the (version configuration, order) groups, one rotation per negotiated version] x public route of the client-step events {step(); update()+apply(); reset()+apply()} [rotated likewise]), states de-duplicated by canonical key, every transition re-executed on the real Client and Server; oracles judge against the state named in End of Data, never against the source's latest state; timing is judged only when the source was asked for its timing while in that very state (the library reads timing in a separate call, so an update landing between data and timing leaves the clause undefined); the civ=2 roots with limit 0 and 2 build the client with Client::new, all others with Client::with_initial_version; every payload handed to the target or served by the source also goes through the accessor sweep (payload_type, is_v4, Aspa::key, Action predicates, into_bytes, asn_count, pdu into_key_info / into_providers, State::inc / Serial::add / State::new*), compared with sibling accessors only; non-trivial = transitions whose client step completed (Ok) AND changed the client's state or data (each (state, event) pair is executed once, so they are distinct by construction)");
 
     // `Afi`, the RTR address-family octet: not used by client or server, swept
     // over all 256 values against its own siblings.
@@ -1986,7 +2022,7 @@ fn main() {
     let total_ok: u64 = st.ok_by_pair.values().sum();
     if total_ok == 0 { ctx.machinery_error("vacuous: no client step succeeded anywhere") }
     for &(civ, limit, mode) in &vconfigs {
-        let c = Cfg { civ, limit, mode, style: styles[0].0, cap: styles[0].1, order: Order::Grouped, link: Transport::Roomy, init: Init::NoState };
+        let c = Cfg { civ, limit, mode, style: styles[0].0, cap: styles[0].1, order: Order::Grouped, link: Transport::Roomy, route: Route::Step, init: Init::NoState };
         let p = pair_name(&c);
         if st.ok_by_pair.get(&p).copied().unwrap_or(0) == 0 {
             ctx.machinery_error(format!("vacuous: no client step succeeded for {p}"));
